@@ -14,6 +14,7 @@ from engine.kani_unit import H
 from engine.rsx import LostAnchor, RewriteRefused
 from contracts import common
 from units import esc as unit
+from units import ntterm
 
 LEVEL = "proof"
 ID = "C03"
@@ -102,8 +103,28 @@ def run_verus_part(rep):
     rep.assume("std::io::Error is an opaque external type")
     rep.assume("Rio's N-Triples/N-Quads parser implements the W3C grammar's STRING_LITERAL_QUOTE (unesc); not run by the deciding step")
     rep.assume("slice length < usize::MAX (requires of quoted_string; true for every Rust slice: len <= isize::MAX)")
-    res = verus.run_verus(ID, "esc", info["text"])
-    failed = verus.record(rep, res, info["expect_functions"], "verus:esc::", "turtle/src/serializer/nt.rs")
+    # write_term / write_triple together with quoted_string (so that the call is checked against the verified
+    # contract); if their splice is lost, quoted_string alone is still proved and the term level is left to the
+    # bounded harnesses / stand-ins below
+    try:
+        tinfo = ntterm.build(core.REPO)
+        res = verus.run_verus(ID, "ntterm", tinfo["text"])
+        expect = info["expect_functions"] + ["write_term", "write_triple", "write_triple_arr"]
+        rep.cuts.update(tinfo["cuts"])
+        rep.rewrites.update(tinfo["rewrites"])
+        for a in tinfo["assumptions"]:
+            rep.assume(a)
+        rep.functions.append("sophia_turtle::serializer::nt::{write_term, write_triple} (turtle/src/serializer/nt.rs), extracted, bodies verbatim up to R0 (stand-in Term/Triple traits, `xsd::string != dt`) and R6 (specialised copy for the recursive call)")
+        tcan = ntterm.build(core.REPO, canary="always_suffix")
+        tcres = verus.run_verus(ID, "ntterm_canary", tcan["text"])
+        rep.guard("canary: a term grammar that always writes the datatype suffix must be refuted on write_term",
+                  tcres["funcs"].get("write_term") is False, "write_term success=%s" % tcres["funcs"].get("write_term"))
+    except (LostAnchor, RewriteRefused, Undecided) as e:
+        rep.notes.append("U-NTTERM not available (%s): write_term/write_triple left to the bounded checks" % str(e)[:200])
+        rep.not_covered.append("write_term / write_triple unbounded proof (splice lost on this tree: %s)" % str(e)[:200])
+        res = verus.run_verus(ID, "esc", info["text"])
+        expect = info["expect_functions"]
+    failed = verus.record(rep, res, expect, "verus:nt::", "turtle/src/serializer/nt.rs")
     # vacuity guard 3: the canary spec (esc that forgets CR) must FAIL on quoted_string
     can = unit.build(core.REPO, canary="spec_wrong_cr")
     cres = verus.run_verus(ID, "esc_canary", can["text"])
@@ -123,7 +144,7 @@ def run_verus_part(rep):
         if rc == 1:
             witness, confirmed = out.strip().splitlines()[-1], True
         for f in failed:
-            rep.violation("verus:esc::" + f, verus.blocks_for(res, [f]), witness=witness,
+            rep.violation("verus:nt::" + f, verus.blocks_for(res, [f]), witness=witness,
                           replay_text="cd /verif && ./check C03 --replay <this file>   # runs replay_src/c03 `enum` on the real sophia_turtle",
                           confirmed=confirmed)
     rep.not_covered += [
@@ -131,6 +152,7 @@ def run_verus_part(rep):
         "injectivity of whole-term framing needs the validators' character classes (regexes; assumed)",
         "Rio parser conformance (assumed)",
     ]
+    rep.notes.append("Verus proves write_term(t) writes exactly fmt_term(t) for every term value at every nesting depth (datatype suffix iff the datatype is not xsd:string, tag, quoted triples), through stand-in accessor contracts")
     rep.notes.append("Verus proves quoted_string == esc for all byte strings; lemmas give unesc(esc(s)) == s, line discipline and UTF-8 preservation")
 
 
